@@ -76,11 +76,11 @@ def nameTable : List String := [
 /-- tensorclass.py `_METHOD_FROM_TD` (7 entries, source order) -/
 def methodFromTd : List Nat := [264, 346, 374, 375, 376, 377, 433]
 
-/-- tensorclass.py `_FALLBACK_METHOD_FROM_TD` (278 entries, source order) -/
-def fallbackWrap : List Nat := [3, 5, 6, 8, 20, 31, 32, 35, 36, 37, 39, 45, 46, 47, 49, 50, 51, 52, 57, 59, 60, 61, 62, 69, 72, 74, 76, 77, 89, 95, 101, 102, 103, 104, 105, 114, 117, 140, 142, 144, 153, 160, 162, 164, 167, 172, 181, 190, 191, 192, 193, 194, 195, 196, 197, 198, 199, 200, 201, 202, 203, 204, 205, 206, 207, 208, 209, 210, 211, 212, 215, 216, 217, 219, 220, 222, 223, 224, 225, 226, 227, 228, 229, 230, 231, 232, 234, 235, 236, 237, 238, 240, 241, 242, 243, 244, 245, 246, 247, 248, 249, 250, 254, 256, 257, 260, 261, 262, 265, 268, 269, 270, 271, 272, 273, 274, 275, 276, 277, 278, 280, 281, 282, 283, 284, 285, 286, 287, 288, 289, 290, 291, 292, 293, 294, 295, 298, 300, 301, 302, 303, 305, 306, 308, 309, 315, 316, 317, 318, 319, 320, 333, 334, 335, 336, 337, 340, 341, 342, 343, 344, 348, 350, 351, 352, 353, 354, 355, 356, 357, 358, 359, 360, 362, 364, 365, 366, 367, 368, 369, 370, 371, 372, 373, 378, 379, 380, 381, 382, 383, 385, 386, 389, 390, 391, 392, 393, 394, 395, 397, 402, 403, 404, 406, 407, 408, 409, 410, 411, 412, 413, 416, 417, 418, 421, 422, 423, 424, 425, 426, 427, 429, 430, 431, 432, 435, 437, 439, 441, 442, 445, 446, 447, 448, 449, 450, 451, 452, 454, 456, 457, 458, 459, 460, 461, 462, 463, 465, 466, 467, 468, 469, 470, 471, 472, 473, 475, 476, 477, 478, 479, 483, 484, 485, 486, 487, 488, 489, 490, 492, 493, 494, 495, 500, 501, 502, 503, 504]
+/-- tensorclass.py `_FALLBACK_METHOD_FROM_TD` (279 entries, source order) -/
+def fallbackWrap : List Nat := [3, 5, 6, 8, 20, 31, 32, 35, 36, 37, 39, 45, 46, 47, 49, 50, 51, 52, 57, 59, 60, 61, 62, 69, 72, 74, 76, 77, 89, 95, 101, 102, 103, 104, 105, 114, 117, 140, 142, 144, 153, 160, 162, 164, 167, 172, 181, 190, 191, 192, 193, 194, 195, 196, 197, 198, 199, 200, 201, 202, 203, 204, 205, 206, 207, 208, 209, 210, 211, 212, 215, 216, 217, 219, 220, 221, 222, 223, 224, 225, 226, 227, 228, 229, 230, 231, 232, 234, 235, 236, 237, 238, 240, 241, 242, 243, 244, 245, 246, 247, 248, 249, 250, 254, 256, 257, 260, 261, 262, 265, 268, 269, 270, 271, 272, 273, 274, 275, 276, 277, 278, 280, 281, 282, 283, 284, 285, 286, 287, 288, 289, 290, 291, 292, 293, 294, 295, 298, 300, 301, 302, 303, 305, 306, 308, 309, 315, 316, 317, 318, 319, 320, 333, 334, 335, 336, 337, 340, 341, 342, 343, 344, 348, 350, 351, 352, 353, 354, 355, 356, 357, 358, 359, 360, 362, 364, 365, 366, 367, 368, 369, 370, 371, 372, 373, 378, 379, 380, 381, 382, 383, 385, 386, 389, 390, 391, 392, 393, 394, 395, 397, 402, 403, 404, 406, 407, 408, 409, 410, 411, 412, 413, 416, 417, 418, 421, 422, 423, 424, 425, 426, 427, 429, 430, 431, 432, 435, 437, 439, 441, 442, 445, 446, 447, 448, 449, 450, 451, 452, 454, 456, 457, 458, 459, 460, 461, 462, 463, 465, 466, 467, 468, 469, 470, 471, 472, 473, 475, 476, 477, 478, 479, 483, 484, 485, 486, 487, 488, 489, 490, 492, 493, 494, 495, 500, 501, 502, 503, 504]
 
-/-- tensorclass.py `_FALLBACK_METHOD_FROM_TD_NOWRAP` (67 entries, source order) -/
-def fallbackNowrap : List Nat := [11, 82, 83, 84, 87, 96, 109, 110, 111, 113, 115, 116, 119, 130, 141, 146, 147, 148, 154, 155, 158, 187, 213, 214, 218, 221, 252, 255, 259, 263, 267, 312, 313, 321, 322, 323, 324, 325, 326, 327, 328, 329, 330, 331, 332, 338, 339, 361, 363, 384, 387, 388, 398, 399, 401, 405, 419, 420, 428, 434, 436, 443, 453, 455, 480, 482, 499]
+/-- tensorclass.py `_FALLBACK_METHOD_FROM_TD_NOWRAP` (66 entries, source order) -/
+def fallbackNowrap : List Nat := [11, 82, 83, 84, 87, 96, 109, 110, 111, 113, 115, 116, 119, 130, 141, 146, 147, 148, 154, 155, 158, 187, 213, 214, 218, 252, 255, 259, 263, 267, 312, 313, 321, 322, 323, 324, 325, 326, 327, 328, 329, 330, 331, 332, 338, 339, 361, 363, 384, 387, 388, 398, 399, 401, 405, 419, 420, 428, 434, 436, 443, 453, 455, 480, 482, 499]
 
 /-- tensorclass.py `_FALLBACK_METHOD_FROM_TD_FORCE` (5 entries, source order) -/
 def fallbackForce : List Nat := [23, 29, 40, 42, 58]
